@@ -157,7 +157,7 @@ add('C10', "spec/ApiHistory.tla models the compile cache, the shared grammar obj
     "executed alone in a fresh interpreter. spec/SemIdentity.tla models the process-wide action cache against object identity (addresses are reused once an "
     "object is gone) and against the object's own __hash__/__eq__/truth value: TLC proves ActionsOfGivenObject for the cache keyed by the identity of the object "
     "(which it keeps alive) and refutes the by-address and the by-equality designs (equal objects with different actions, unhashable and falsy objects), whose behaviours "
-    "(New / Drop / Parse; address reuse achieved by allocating until id() repeats) are replayed into the real code. spec/ThreadShare.tla models what threads that parse with ONE "
+    "(New / Drop / Parse; address reuse achieved by allocating until id() repeats) are replayed into the real code. spec/BuilderOptions.tla models the object-model options of compile() (basetype=) against the compile cache and the registry of synthesized classes: TLC proves the required design, refutes three others, and the histories of the design as coded are replayed in fresh interpreters (KF-C10-5). spec/ThreadShare.tla models what threads that parse with ONE "
     "freshly compiled asmodel model share, one action per critical section (the cached optimized grammar under its lock, the module registry of synthesized classes, the "
     "builder's constructor registry): TLC proves NoError, OneClassPerName, BuiltOnce, ThreadIndependent and liveness for the required design (get-or-create registry, serialized "
     "optimized()) and refutes the check-then-act and the unserialized designs; an edge cover of the required design's state graph - every interleaving of the steps of 2 (3) "
@@ -168,7 +168,7 @@ add('C10', "spec/ApiHistory.tla models the compile cache, the shared grammar obj
     "Trusted: TLC; the fingerprint/abstraction of responses in harness/apireplay.py; the yield-point wrappers of harness/threadreplay.py (their single-thread point sequence is "
     "checked against the specification's sequential behaviour in every run). Free-running thread rounds are exploration. "
     "Compile-time settings are excluded from the pool (C09 / KF-C09-1).",
-    "TLA+ specs ApiHistory, SemIdentity, ThreadShare model-checked by TLC (required designs proved, as-coded/racy designs refuted) + state-graph histories and forced thread interleavings replayed into the real code", "5 C10, 3.7, 0.5")
+    "TLA+ specs ApiHistory, SemIdentity, BuilderOptions, ThreadShare model-checked by TLC (required designs proved, as-coded/racy designs refuted) + state-graph histories and forced thread interleavings replayed into the real code", "5 C10, 3.7, 0.5")
 
 add('C07', "PegSem with the model-building action (Cfg.act = model): a rule annotated name::T::Base yields Obj(T, bases, attributes = named elements or "
     "the single attribute ast), builtin type names convert the value; TLC evaluates it on 11 typed grammars x all texts up to the bound; each case is "
